@@ -405,6 +405,14 @@ func (c *Ctx) fold(cond ssa.Value) (bool, bool) {
 		cond = u.X
 		neg = !neg
 	}
+	if call, isCall := cond.(*ssa.Call); isCall && len(c.Assume) > 0 {
+		if v, known := c.callBool(call, 0); known {
+			if neg {
+				v = !v
+			}
+			return v, true
+		}
+	}
 	b, ok := cond.(*ssa.BinOp)
 	if !ok {
 		// a bool-typed discriminator used directly as the condition
@@ -1198,4 +1206,59 @@ func (c *Ctx) ExitsUnder(fn *ssa.Function, idx int) []string {
 func (g Gate) WithEdge(f func(Fact) bool) Gate {
 	g.Edge = f
 	return g
+}
+
+// callBool: the bool result of a call to a module function is the same
+// constant on every return reachable under the assumptions (e.g.
+// Version.SupportsVariants() for a fixed version).
+func (c *Ctx) callBool(call *ssa.Call, depth int) (bool, bool) {
+	if depth > 3 {
+		return false, false
+	}
+	sc := call.Call.StaticCallee()
+	if sc == nil || sc.Blocks == nil || !c.P.InModule(sc) || sc.Signature.Results().Len() != 1 {
+		return false, false
+	}
+	if bt, ok := sc.Signature.Results().At(0).Type().Underlying().(*types.Basic); !ok || bt.Kind() != types.Bool {
+		return false, false
+	}
+	var val, have bool
+	seen := map[*ssa.BasicBlock]bool{sc.Blocks[0]: true}
+	stack := []*ssa.BasicBlock{sc.Blocks[0]}
+	for len(stack) > 0 {
+		b := stack[len(stack)-1]
+		stack = stack[:len(stack)-1]
+		succs := b.Succs
+		switch t := b.Instrs[len(b.Instrs)-1].(type) {
+		case *ssa.Return:
+			var v, known bool
+			if k, ok := t.Results[0].(*ssa.Const); ok && k.Value != nil && k.Value.Kind() == constant.Bool {
+				v, known = constant.BoolVal(k.Value), true
+			} else {
+				v, known = c.fold(t.Results[0])
+			}
+			if !known {
+				return false, false
+			}
+			if have && v != val {
+				return false, false
+			}
+			val, have = v, true
+		case *ssa.If:
+			if v, known := c.fold(t.Cond); known {
+				if v {
+					succs = b.Succs[:1]
+				} else {
+					succs = b.Succs[1:]
+				}
+			}
+		}
+		for _, s := range succs {
+			if !seen[s] {
+				seen[s] = true
+				stack = append(stack, s)
+			}
+		}
+	}
+	return val, have
 }
